@@ -104,6 +104,7 @@ type stats struct {
 	WallS        float64         `json:"wall_s"`
 	ToolErrors   []string        `json:"tool_errors"`
 	Inconclusive int             `json:"inconclusive"`
+	SitesHit     map[string]bool `json:"sites_hit"`
 	Extra        json.RawMessage `json:"extra"`
 }
 
@@ -462,6 +463,12 @@ func cmdRun(args []string) {
 					tot.Samples = append(tot.Samples, st.Samples...)
 				}
 				tot.ToolErrors = append(tot.ToolErrors, st.ToolErrors...)
+				if tot.SitesHit == nil {
+					tot.SitesHit = map[string]bool{}
+				}
+				for k, v := range st.SitesHit {
+					tot.SitesHit[k] = tot.SitesHit[k] || v
+				}
 			}
 		}
 	}
@@ -615,6 +622,30 @@ func cmdRun(args []string) {
 	if len(tot.Samples) == 0 {
 		tot.Samples = []interface{}{"no non-trivial run in this batch"}
 	}
+	// reach: statements / functions of the property's code that simulated threads actually executed
+	sitesTotal, sitesHit := 0, 0
+	fnHit := map[string]bool{}
+	for name, hit := range tot.SitesHit {
+		sitesTotal++
+		f := strings.Fields(name)
+		fn := name
+		if len(f) >= 2 {
+			fn = f[0][:strings.Index(f[0]+":", ":")] + " " + f[1]
+		}
+		if hit {
+			sitesHit++
+			fnHit[fn] = true
+		} else if !fnHit[fn] {
+			fnHit[fn] = false
+		}
+	}
+	var neverReached []string
+	for fn, hit := range fnHit {
+		if !hit {
+			neverReached = append(neverReached, fn)
+		}
+	}
+	sort.Strings(neverReached)
 	ev := map[string]interface{}{
 		"property_id": *prop, "tier": *tier, "seed": seed, "level": level, "wall_s": wallS, "violations": newViolations,
 		"assumptions": append([]string{"statement-granular, sequentially consistent interleavings (DESIGN.md §7)",
@@ -627,6 +658,8 @@ func cmdRun(args []string) {
 			"faults_fired": tot.Faults, "probes": tot.Probes, "probes_at_zero": zero, "strategy_mix": tot.Strategies,
 			"run_end_reasons": tot.Reasons, "components_real": meta.Real, "components_stub": meta.Stub,
 			"determinism_selftest_seeds_x_processes": fmt.Sprintf("%d x 3 (GOMAXPROCS 1/4/16), identical event-log hashes", detSeeds),
+			"code_reach": map[string]interface{}{"instrumented_statements_in_scope": sitesTotal, "statements_executed_by_simulated_threads": sitesHit,
+				"functions_in_scope": len(fnHit), "functions_never_reached": neverReached},
 			"worker_processes": *workers, "build_s": buildS, "search_s": searchS, "tree": treeID(),
 		},
 	}
